@@ -42,7 +42,7 @@ impl Check for C02 {
     fn cases(&self, tier: Tier) -> u64 {
         match tier {
             Tier::Quick => 100_000,
-            Tier::Thorough => 600_000,
+            Tier::Thorough => 1_500_000,
         }
     }
     fn tape_len(&self) -> usize {
